@@ -15,6 +15,8 @@ func init() { codecGens["C18"] = genC18 }
 // C18: the whole finite domain is enumerated on the code side (both tiers).
 func genC18(e *emitter, tier string, seed uint64) map[string]interface{} {
 	// all 2^16 field tuples over the 4-bit domain
+	var prevBytes []byte
+	prevHex := ""
 	for v := 0; v < 16; v++ {
 		for c := 0; c < 16; c++ {
 			for p := 0; p < 16; p++ {
@@ -22,6 +24,13 @@ func genC18(e *emitter, tier string, seed uint64) map[string]interface{} {
 					h := protocol.Handshake{Version: uint8(v), Codec: protocol.CodecType(c), Platform: protocol.PlatformType(p), Reserve: uint8(r)}
 					bs := h.Pack()
 					idx := e.op(fmt.Sprintf("hs.pack v=%d c=%d p=%d r=%d", v, c, p, r), hex.EncodeToString(bs), "pack-4bit", true)
+					// an encoded handshake stays what it was when the next one is encoded (a connection's writer sends it later)
+					if prevBytes != nil && hex.EncodeToString(prevBytes) != prevHex {
+						e.fail(idx, "unpack_pack", fmt.Sprintf("the bytes returned by an earlier Pack (%s) changed to %x when %+v was packed", prevHex, prevBytes, h))
+						prevBytes = nil
+					} else {
+						prevBytes, prevHex = bs, hex.EncodeToString(bs)
+					}
 					// property, directly on the code: decode(encode h) = h
 					var g protocol.Handshake
 					if err := g.Unpack(bs); err != nil || g != h {
@@ -104,6 +113,30 @@ func genC18(e *emitter, tier string, seed uint64) map[string]interface{} {
 		}
 		if res2 == "err" && (ctx.Handshaked || ctx.Version != 0) {
 			e.fail(idx, "ctx_handshake_iff", "rejected handshake modified the context")
+		}
+	}
+	// a context that already went through a handshake adopts the next accepted one completely (every codec and platform nibble,
+	// including 0), and a rejected one leaves it as it was
+	for _, first := range [][3]int{{1, 1, 9}, {2, 2, 3}, {2, 15, 15}} {
+		for v2 := 0; v2 < 4; v2++ {
+			for c2 := 0; c2 < 16; c2++ {
+				for _, p2 := range []int{0, 1, 9, 15} {
+					ctx := protocol.NewContext(context.Background(), protocol.ClientSide)
+					if err := ctx.Handshake(&protocol.Handshake{Version: uint8(first[0]), Codec: protocol.CodecType(first[1]), Platform: protocol.PlatformType(first[2])}); err != nil {
+						continue
+					}
+					err := ctx.Handshake(&protocol.Handshake{Version: uint8(v2), Codec: protocol.CodecType(c2), Platform: protocol.PlatformType(p2)})
+					got := fmt.Sprintf("%v %d %d %d", err == nil, ctx.Version, ctx.Codec, ctx.Platform)
+					want := fmt.Sprintf("false %d %d %d", first[0], first[1], first[2])
+					if v2 == 1 || v2 == 2 {
+						want = fmt.Sprintf("true %d %d %d", v2, c2, p2)
+					}
+					idx := e.op(fmt.Sprintf("ids.note rehandshake first=%v second=%d,%d,%d", first, v2, c2, p2), "ok", "ctx-rehandshake", true)
+					if got != want {
+						e.fail(idx, "ctx_handshake_adopts", fmt.Sprintf("context after handshake %v then (%d,%d,%d): accepted/version/codec/platform = %s, want %s", first, v2, c2, p2, got, want))
+					}
+				}
+			}
 		}
 	}
 	return map[string]interface{}{"exhaustive": true}
